@@ -161,6 +161,7 @@ func runC20(c *eng.Ctx) {
 			return out
 		}
 		c.Check("R2", "tsdb/tombstones:WriteFile+ReadTombstones", "writer and reader hash the same sub-slice of the encoded bytes", sk(w) == sk(r) && sk(w) != "", p.Pos(r.Body.Pos()), "writer hashes "+sk(w)+", reader hashes "+sk(r))
+		c.Codec("R2", "tsdb/tombstones:Encode", "tsdb/tombstones:Decode", []string{"tsdb/tombstones"})
 		c.CallersSubset("R2", "tsdb/tombstones:Encode", 2, "tsdb/tombstones:WriteFile", "tsdb:encodeTombstonesToSnapshotRecord")
 		c.CallersSubset("R2", "tsdb/tombstones:Decode", 2, "tsdb/tombstones:ReadTombstones", "tsdb:decodeTombstonesSnapshotRecord")
 	}
